@@ -21,25 +21,33 @@ theorem upper_no_dollar (name : Str) (h : 36 ∉ name) : 36 ∉ upper name := by
     · simp only [hl]
       exact fun e => hc e.symm
 
-/-- the text after `${` of the product's own reference, followed by anything: its first character is not `P` when the
-(upper-cased) name does not start with `P` -/
-theorem nameTail_head (name tail : Str) (hhead : (upper name).head? ≠ some 80) :
-    (upper name ++ Str.ofString "_DIR}" ++ tail).head? ≠ some 80 := by
-  cases hu : upper name with
-  | nil => simp [Str.ofString]
-  | cons x xs => rw [hu] at hhead; simpa using hhead
+/-- `PRODUCT`: what every macro of the earlier steps starts with after `${` -/
+def sPRODUCT : Str := [80,82,79,68,85,67,84]
 
-theorem isPrefixOf_third (a b : Nat) (ps ys : Str) (hy : ys.head? ≠ some 80) :
-    (a :: b :: 80 :: ps).isPrefixOf (a :: b :: ys) = false := by
-  cases ys with
-  | nil => simp [List.isPrefixOf]
-  | cons y ys' =>
-    have : y ≠ 80 := fun e => hy (by simp [e])
-    simp [List.isPrefixOf, Ne.symm this]
+theorem isPrefixOf_append_false (P ps : Str) : ∀ ys : Str, P.isPrefixOf ys = false → (P ++ ps).isPrefixOf ys = false := by
+  induction P with
+  | nil => intro ys h; simp [List.isPrefixOf] at h
+  | cons c cs ih =>
+    intro ys h
+    cases ys with
+    | nil => simp [List.isPrefixOf]
+    | cons y ys' =>
+      simp only [List.cons_append, List.isPrefixOf] at h ⊢
+      by_cases hc : c == y
+      · simp only [hc, Bool.true_and] at h ⊢
+        exact ih ys' h
+      · simp [hc]
 
-theorem pdirAt_third (ys : Str) (hy : ys.head? ≠ some 80) : pdirAt (36 :: 123 :: ys) = none := by
-  have a := isPrefixOf_third 36 123 [82,79,68,85,67,84,95,68,73,82,125] ys hy
-  have b := isPrefixOf_third 36 123 [82,79,68,85,67,84,95,68,73,82,95,69,88,84,82,65,125] ys hy
+theorem isPrefixOf_third (a b : Nat) (ps ys : Str) (hy : sPRODUCT.isPrefixOf ys = false) :
+    (a :: b :: (sPRODUCT ++ ps)).isPrefixOf (a :: b :: ys) = false := by
+  have := isPrefixOf_append_false sPRODUCT ps ys hy
+  simp only [List.isPrefixOf, beq_self_eq_true, Bool.true_and]
+  exact this
+
+theorem pdirAt_third (ys : Str) (hy : sPRODUCT.isPrefixOf ys = false) : pdirAt (36 :: 123 :: ys) = none := by
+  have a := isPrefixOf_third 36 123 [95,68,73,82,125] ys hy
+  have b := isPrefixOf_third 36 123 [95,68,73,82,95,69,88,84,82,65,125] ys hy
+  simp only [sPRODUCT, List.cons_append, List.nil_append] at a b
   have c : ([36,63,123,80,82,79,68,85,67,84,95,68,73,82,125] : Str).isPrefixOf (36 :: 123 :: ys) = false := by
     simp [List.isPrefixOf]
   have d : ([36,63,123,80,82,79,68,85,67,84,95,68,73,82,95,69,88,84,82,65,125] : Str).isPrefixOf (36 :: 123 :: ys)
@@ -49,14 +57,15 @@ theorem pdirAt_third (ys : Str) (hy : ys.head? ≠ some 80) : pdirAt (36 :: 123 
   rw [mDIR_eq, mDIRopt_eq, mEXTRA_eq, mEXTRAopt_eq, a, b, c, d]
   rfl
 
-theorem firstPdir_third (ys : Str) (hy : ys.head? ≠ some 80) (h36 : 36 ∉ ys) :
+theorem firstPdir_third (ys : Str) (hy : sPRODUCT.isPrefixOf ys = false) (h36 : 36 ∉ ys) :
     firstPdir (36 :: 123 :: ys) = none := by
   have h : firstPdir (123 :: ys) = none := firstPdir_no_dollar _ (by simp [h36])
   rw [firstPdir, pdirAt_third ys hy]
   exact h
 
 theorem expandMacros_name_dir (p : ProdInfo) (d tail : Str) (hd : p.dir = some d) (hne : d ≠ [])
-    (hd36 : 36 ∉ d) (ht : 36 ∉ tail) (hn36 : 36 ∉ p.name) (hhead : (upper p.name).head? ≠ some 80) :
+    (hd36 : 36 ∉ d) (ht : 36 ∉ tail) (hn36 : 36 ∉ p.name)
+    (hP : sPRODUCT.isPrefixOf (upper p.name ++ Str.ofString "_DIR}" ++ tail) = false) :
     expandMacros p (mNameDir p.name ++ tail) = d ++ tail := by
   -- the text is `$ { N… tail` with no further `$`
   obtain ⟨ys, hysdef⟩ : ∃ ys, ys = upper p.name ++ Str.ofString "_DIR}" ++ tail := ⟨_, rfl⟩
@@ -67,13 +76,15 @@ theorem expandMacros_name_dir (p : ProdInfo) (d tail : Str) (hd : p.dir = some d
     have h2 : 36 ∉ Str.ofString "_DIR}" := by decide
     simp [hysdef, h1, h2, ht]
   have hbody : 36 ∉ 123 :: ys := by simp [hys36]
-  have hyhead : ys.head? ≠ some 80 := by rw [hysdef]; exact nameTail_head p.name tail hhead
+  have hyhead : sPRODUCT.isPrefixOf ys = false := by rw [hysdef]; exact hP
   -- the `${PRODUCTS}` step
   have h1 : optRepl mPRODUCTS p.root (36 :: 123 :: ys) = 36 :: 123 :: ys := by
     apply optRepl_id
     intro r
     apply replaceAll_dollar_head_only _ _ _ head_mPRODUCTS _ hbody
-    rw [mPRODUCTS_eq]; exact isPrefixOf_third 36 123 _ ys hyhead
+    rw [mPRODUCTS_eq]
+    have := isPrefixOf_third 36 123 [83,125] ys hyhead
+    simpa [sPRODUCT] using this
   -- the PRODUCT_DIR step
   have h2 : expandPdir p (36 :: 123 :: ys) = 36 :: 123 :: ys := by
     have hf : firstPdir (36 :: 123 :: ys) = none := firstPdir_third ys hyhead hys36
@@ -100,7 +111,11 @@ def cxx : ProdInfo :=
 
 example : expandMacros cxx (Str.ofString "${C++_DIR}/bin") = Str.ofString "/opt/c/bin" := by decide
 example : expandMacros cxx (Str.ofString "${C_DIR}/lib") = Str.ofString "${C_DIR}/lib" := by decide
-example : 36 ∉ cxx.name ∧ (upper cxx.name).head? ≠ some 80 := by decide
+example : 36 ∉ cxx.name ∧ sPRODUCT.isPrefixOf (upper cxx.name ++ Str.ofString "_DIR}" ++ Str.ofString "/bin") = false := by
+  decide
+/-- a product `python` (starts with `p`) satisfies the hypothesis too -/
+example : sPRODUCT.isPrefixOf (upper (Str.ofString "python") ++ Str.ofString "_DIR}" ++ Str.ofString "/lib") = false := by
+  decide
 
 end EupsModel.PathAct
 
